@@ -71,19 +71,46 @@ func HarnessMetadata() {
 	}
 	vrtIssuer = vrtStaticIssuer
 	issuer := vrtIssuer
-	switch vrtChoice("issuer.form", 3) {
+	issuerFrom := StaticIssuer(issuer)
+	forms := 3
+	if vrtProp("C11") {
+		forms = 4 // ... or derived from the Host of each request
+	}
+	hostIssuer := false
+	switch vrtChoice("issuer.form", forms) {
 	case 1:
 		issuer = vrtIssuer + "/"
+		issuerFrom = StaticIssuer(issuer)
 	case 2:
 		issuer = vrtIssuer + "/saml/"
+		issuerFrom = StaticIssuer(issuer)
+	case 3:
+		hostIssuer = true
+		host := vrtStr("req.host")
+		vrtAssume(vrtMatches(host, "hosttoken"))
+		vrtAssume(vrtMatches(vrtStr("hist.req.host"), "hosttoken"))
+		issuer = "https://" + host
+		issuerFrom = IssuerFromHost("")
 	}
 	vrtConfWantMD = conf.IDPConfig.WantAuthRequestsSigned
-	p, err := NewProvider(st, StaticIssuer(issuer), conf)
+	p, err := NewProvider(st, issuerFrom, conf)
 	if err != nil {
 		vrtFail("harness.NewProvider-failed")
 		return
 	}
 	base := vrtTrimSuffix(issuer, "/")
+	if hostIssuer && !vrtBool("hist.none") {
+		// history: the metadata was fetched under another host before (one provider, two issuers)
+		if mp, ok := vrtRoutePathOf(p.HttpHandler(), "metadataHandle"); ok {
+			hb := vrtNewRequest("hist.req", "GET", mp)
+			vrtReqNoExtras(hb)
+			vrtAssume(!vrtBool("hist.req.parsefail"))
+			calls, faulted, seq, noFaults, keyShapes := st.calls, st.faulted, st.seq, st.noFaults, st.keyShapes
+			st.calls, st.faulted, st.seq, st.noFaults, st.keyShapes = nil, false, nil, true, false
+			vrtServe(p, hb)
+			st.calls, st.faulted, st.seq, st.noFaults, st.keyShapes = calls, faulted, seq, noFaults, keyShapes
+		}
+	}
 
 	route := vrtChoice("route", 4)
 	var rb *vrtReq
